@@ -321,6 +321,8 @@ def check_poisson(ctx, cc):
             raise Violation("Poisson mode: entries are correlated (pooled z = %.1f)" % z, key="poisson:independence")
 
 
+RULE = RULE + " " + ("Since seeded round 5 the script is built through four routes (constructor / dictionary reader, mode spelled out / left to the default when it is 'auto'); facet poisson_large pools >= 60000 Poisson-mode draws (400000 in the thorough tier) over entries with real amounts in 100..160 and tests the pooled mean (a bias of half a molecule is ~10 sigma).")
+
 FACETS = [
     Facet("state", check_state, strategy=strat_state, examples=(1600, 40000), shards=(16, 16), setup=setup, native=True, shrink=True),
     Facet("poisson", check_poisson, strategy=strat_poisson, examples=(96, 1500), shards=(8, 16), setup=setup, native=True),
